@@ -66,7 +66,8 @@ def excuse_interning_order(pid, trace, stats):
     fresh diagnostics differ ONLY in the order of the names of such a list, both are rewritten to the sorted form
     (counted, reported); every other difference stays."""
     kf = next((k for k in known_findings("C10") if k.get("region") == "member-list-in-interning-order"), None)
-    if not kf:
+    kfb = next((k for k in known_findings("C10") if k.get("region") == "or-pattern-bindings-in-interning-order"), None)
+    if not kf and not kfb:
         return
     rows = read_ndjson(trace)
     n = nb = 0
@@ -77,9 +78,11 @@ def excuse_interning_order(pid, trace, stats):
             continue
         dc = {m: sorted(_sorted_member_list(x) for x in v) for m, v in d.items()}
         fc = {m: sorted(_sorted_member_list(x) for x in v) for m, v in f.items()}
-        if dc == fc:
+        if kf and dc == fc:
             post["diag"], post["fresh"] = dc, fc
             n += 1
+            continue
+        if not kfb:
             continue
         # the same root cause (PStr order = interning order) shows in a second list of names: the bindings listed by
         # `Or-pattern alternatives must bind the same variables` (checker: BTreeSet<PStr>).  Same narrow rule: only
@@ -211,13 +214,11 @@ ASSUMPTIONS = [
 def run(tier):
     coverage, fails, wall = run_common(PID, VERDICT_CFG, tier, LONG, QUERIES, SLICES,
                                        ["C10", "SigBuiltFor", "SigDomain", "CheckedDomain", "RecheckCovers"])
-    kf = next((k for k in known_findings(PID) if k.get("region") == "member-list-in-interning-order"), None)
-    if kf:
-        n = coverage.get("events_excused_by_member_list_order", 0)
-        nb = coverage.get("events_excused_by_binding_list_order", 0)
-        report_known(PID, f"{kf['what']} [{n} events of this run differ only in that order; {nb} more differ only in the "
-                          f"order of the names listed by `Or-pattern alternatives must bind the same variables` "
-                          f"(BTreeSet<PStr> in the checker: the same interning order)]")
+    for region, key in (("member-list-in-interning-order", "events_excused_by_member_list_order"),
+                        ("or-pattern-bindings-in-interning-order", "events_excused_by_binding_list_order")):
+        kf = next((k for k in known_findings(PID) if k.get("region") == region), None)
+        if kf:
+            report_known(PID, f"{kf['what']} [{coverage.get(key, 0)} events of this run differ only in that order]")
     write_evidence(PID, tier, "model_checking", coverage, ASSUMPTIONS, wall, fails)
     return 1 if fails else 0
 
